@@ -184,6 +184,9 @@ Proof. intros H. induction l as [|a l IH]; cbn; auto. rewrite H, IH; auto with d
 Lemma combine_in_r_rect {A B} n (a : list A) (M : list (list B)) p : rectn n M = true -> In p (combine a M) -> length (snd p) = n.
 Proof. intros H Hp. destruct p as [x r]. apply in_combine_r in Hp. apply (rectn_length n M r H Hp). Qed.
 
+Lemma combine_in_l_rect {A B} n (M : list (list A)) (b : list B) p : rectn n M = true -> In p (combine M b) -> length (fst p) = n.
+Proof. intros H Hp. destruct p as [r x]. apply in_combine_l in Hp. apply (rectn_length n M r H Hp). Qed.
+
 Lemma scatter_tab K (img : list R) (tab : list (list R)) : rectn K tab = true ->
   @scatter ROps (@entries_tab ROps img tab) (zeros K)
   = map (fun k => sumR (map (fun ir : R * list R => fst ir * nth k (snd ir) 0) (combine img tab))) (seq 0 K).
@@ -376,4 +379,165 @@ Proof.
   - apply from_columns_map_column; [exact Hj|]. cbv beta.
     unfold cx. rewrite combine_length, !scatter_length, !length_zeros. apply Nat.min_id.
   - cbv beta. unfold visibilities_via_preload. rewrite !scatter_tab_nz_same by assumption. reflexivity.
+Qed.
+
+(* ------------------------------------------------------------------ data vector *)
+Lemma scatter_gen {A B} (rowof : A -> list B) (h : A -> B -> R) (d : B) K (rows : list A) :
+  (forall a, In a rows -> length (rowof a) = K) ->
+  @scatter ROps (flat_map (fun a => map (fun kb => (fst kb, h a (snd kb))) (enum (rowof a))) rows) (zeros K)
+  = map (fun k => sumR (map (fun a => h a (nth k (rowof a) d)) rows)) (seq 0 K).
+Proof.
+  intros Hr. apply nth_ext with (d := 0) (d' := 0).
+  - rewrite scatter_length, length_zeros, map_length, seq_length. reflexivity.
+  - intros n Hn. rewrite scatter_length, length_zeros in Hn.
+    rewrite scatter_gather_zeros.
+    + rewrite nth_map_seq by exact Hn. rewrite hits_flat_map.
+      rewrite flat_map_ext_in with (g := fun a => [h a (nth n (rowof a) d)]).
+      * rewrite map_flat_map_singleton. reflexivity.
+      * intros a Ha. rewrite (hits_enum (h a) (rowof a) d n). rewrite (Hr a Ha).
+        apply Nat.ltb_lt in Hn. rewrite Hn. reflexivity.
+    + apply Forall_flat_map. intros a Ha. rewrite <- (Hr a Ha). apply Forall_enum_map.
+Qed.
+Definition dterm (v n t : R * R) : R := fst v * fst t / (fst n * fst n) + snd v * snd t / (snd n * snd n).
+Lemma data_vector_spec P (TM : list (list (R * R))) (vis noise : list (R * R)) : rectn P TM = true ->
+  @data_vector ROps P TM vis noise = @D_spec ROps P TM vis noise.
+Proof.
+  intros Hr. unfold data_vector, D_spec.
+  rewrite flat_map_ext with
+    (g := fun a : list (R * R) * ((R * R) * (R * R)) =>
+            map (fun kb : nat * (R * R) => (fst kb, dterm (fst (snd a)) (snd (snd a)) (snd kb))) (enum (fst a)))
+    by (intros [row [v n]]; reflexivity).
+  rewrite (scatter_gen (fun a : list (R * R) * ((R * R) * (R * R)) => fst a)
+                       (fun a t => dterm (fst (snd a)) (snd (snd a)) t) (0, 0) P).
+  - apply map_ext. intros j. rewrite sumT_sumR. apply sumR_map_ext. intros [row [v n]] _. reflexivity.
+  - intros a Ha. apply (combine_in_l_rect P TM _ a Hr Ha).
+Qed.
+
+(* ------------------------------------------------------------------ curvature matrix *)
+Lemma nth_map_div (l : list R) c i : nth i (map (fun x => x / c) l) 0 = nth i l 0 / c.
+Proof. revert i; induction l as [|x l IH]; intros [|i]; cbn; auto; unfold Rdiv; ring. Qed.
+Lemma nth_map_fst (l : list (R * R)) i : nth i (map fst l) 0 = fst (nth i l (0, 0)).
+Proof. revert i; induction l as [|x l IH]; intros [|i]; cbn; auto. Qed.
+Lemma nth_map_snd (l : list (R * R)) i : nth i (map snd l) 0 = snd (nth i l (0, 0)).
+Proof. revert i; induction l as [|x l IH]; intros [|i]; cbn; auto. Qed.
+Lemma combine_map_both {A B C D} (f : A -> C) (g : B -> D) (a : list A) (b : list B) :
+  combine (map f a) (map g b) = map (fun p => (f (fst p), g (snd p))) (combine a b).
+Proof. revert b; induction a as [|x a IH]; intros [|y b]; cbn; auto. rewrite IH. reflexivity. Qed.
+
+(* entry (i,j) of np.dot(array.T, array), array = M / noise[:,None] *)
+Lemma curvature_via_mapping_entry P (M : list (list R)) (nz : list R) :
+  @curvature_via_mapping ROps P M nz
+  = map (fun i => map (fun j => sumR (map (fun rn : list R * R => (nth i (fst rn) 0 / snd rn) * (nth j (fst rn) 0 / snd rn)) (combine M nz)))
+                  (seq 0 P)) (seq 0 P).
+Proof.
+  unfold curvature_via_mapping, gram. apply map_ext. intros i. apply map_ext. intros j.
+  unfold dotv, column. rewrite sumT_sumR, !map_map, combine_map_same, map_map.
+  apply sumR_map_ext. intros rn _. cbn [fst snd mul div ROps]. rewrite zero_R, !nth_map_div. reflexivity.
+Qed.
+Lemma madd_maps P (f g : nat -> nat -> R) :
+  @madd ROps (map (fun i => map (fun j => f i j) (seq 0 P)) (seq 0 P)) (map (fun i => map (fun j => g i j) (seq 0 P)) (seq 0 P))
+  = map (fun i => map (fun j => f i j + g i j) (seq 0 P)) (seq 0 P).
+Proof.
+  unfold madd. rewrite combine_map_same, map_map. apply map_ext. intros i. cbn [fst snd].
+  rewrite combine_map_same, map_map. reflexivity.
+Qed.
+Definition fterm (i j : nat) (rn : list (R * R) * (R * R)) : R :=
+  fst (nth i (fst rn) (0, 0)) * fst (nth j (fst rn) (0, 0)) / (fst (snd rn) * fst (snd rn))
+  + snd (nth i (fst rn) (0, 0)) * snd (nth j (fst rn) (0, 0)) / (snd (snd rn) * snd (snd rn)).
+Lemma noise_pos_in (noise : list (R * R)) n : @noise_pos ROps noise = true -> In n noise -> 0 < fst n /\ 0 < snd n.
+Proof.
+  unfold noise_pos. rewrite forallb_forall. intros H Hn. specialize (H n Hn). apply andb_true_iff in H.
+  destruct H as [H1 H2]. cbn in H1, H2. apply Rltb_true in H1, H2. split; assumption.
+Qed.
+Lemma curvature_gram_sum P (TM : list (list (R * R))) (noise : list (R * R)) : @noise_pos ROps noise = true ->
+  @madd ROps (@curvature_via_mapping ROps P (map (map fst) TM) (map fst noise))
+             (@curvature_via_mapping ROps P (map (map snd) TM) (map snd noise))
+  = map (fun i => map (fun j => sumR (map (fterm i j) (combine TM noise))) (seq 0 P)) (seq 0 P).
+Proof.
+  intros Hp. rewrite !curvature_via_mapping_entry.
+  rewrite (madd_maps P
+    (fun i j => sumR (map (fun rn : list R * R => (nth i (fst rn) 0 / snd rn) * (nth j (fst rn) 0 / snd rn)) (combine (map (map fst) TM) (map fst noise))))
+    (fun i j => sumR (map (fun rn : list R * R => (nth i (fst rn) 0 / snd rn) * (nth j (fst rn) 0 / snd rn)) (combine (map (map snd) TM) (map snd noise))))).
+  apply map_ext. intros i. apply map_ext. intros j.
+  rewrite !combine_map_both, !map_map, <- sumR_map_add. apply sumR_map_ext.
+  intros [row n] Hrn. cbn [fst snd]. rewrite !nth_map_fst, !nth_map_snd. unfold fterm. cbn [fst snd].
+  apply in_combine_r in Hrn. destruct (noise_pos_in noise n Hp Hrn) as [H1 H2]. field. split; lra.
+Qed.
+
+(* for i in no_regularization_index_list: F[i,i] += value *)
+Definition getM (F : list (list R)) (i j : nat) : R := nth j (nth i F []) 0.
+Definition squareP (P : nat) (F : list (list R)) : Prop := length F = P /\ forall r, In r F -> length r = P.
+Lemma In_upd_set {A} (l : list A) i v r : In r (upd_set l i v) -> r = v \/ In r l.
+Proof.
+  revert i; induction l as [|x l IH]; intros [|i] H; cbn in *; auto.
+  - destruct H as [H|H]; auto.
+  - destruct H as [H|H]; auto. destruct (IH i H); auto.
+Qed.
+Lemma square_row P F i : squareP P F -> (i < P)%nat -> length (nth i F []) = P.
+Proof. intros [HL HR] Hi. apply HR. apply nth_In. lia. Qed.
+Lemma diag_step P (F : list (list R)) i0 v : squareP P F -> (i0 < P)%nat ->
+  squareP P (upd_set F i0 (@upd_add ROps (nth i0 F []) i0 v)) /\
+  forall i j, getM (upd_set F i0 (@upd_add ROps (nth i0 F []) i0 v)) i j
+              = getM F i j + (if (i0 =? i)%nat && (i0 =? j)%nat then v else 0).
+Proof.
+  intros HS Hi0. pose proof (square_row P F i0 HS Hi0) as Hrow. destruct HS as [HL HR]. split.
+  - split; [rewrite upd_set_length; exact HL|].
+    intros r Hr. apply In_upd_set in Hr. destruct Hr as [->|Hr]; [|apply HR; exact Hr].
+    etransitivity; [apply (@upd_add_length ROps)|exact Hrow].
+  - intros i j. unfold getM. rewrite nth_upd_set by lia.
+    destruct (i0 =? i)%nat eqn:E; cbn [andb].
+    + apply Nat.eqb_eq in E. subst i. rewrite nth_upd_add by lia. reflexivity.
+    + lra.
+Qed.
+Lemma add_to_diag_get P idx : forall (F : list (list R)) v, squareP P F -> Forall (fun i => (i < P)%nat) idx ->
+  squareP P (@add_to_diag ROps F idx v) /\
+  forall i j, getM (@add_to_diag ROps F idx v) i j
+              = getM F i j + (if (i =? j)%nat then IZR (Z.of_nat (count_occ Nat.eq_dec idx i)) * v else 0).
+Proof.
+  induction idx as [|i0 idx IH]; intros F v HS HF.
+  - split; [exact HS|]. intros i j. unfold add_to_diag. cbn [fold_left count_occ Z.of_nat]. destruct (i =? j)%nat; ring.
+  - inversion HF as [|? ? Hi0 HF']; subst.
+    destruct (diag_step P F i0 v HS Hi0) as [HS1 HG1].
+    destruct (IH _ v HS1 HF') as [HS2 HG2].
+    unfold add_to_diag in *. cbn [fold_left]. split; [exact HS2|].
+    intros i j. rewrite HG2, HG1. cbn [count_occ].
+    destruct (Nat.eq_dec i0 i) as [->|Hne].
+    + rewrite Nat.eqb_refl. cbn [andb]. destruct (i =? j)%nat eqn:E.
+      * rewrite Nat2Z.inj_succ, succ_IZR. ring.
+      * ring.
+    + replace (i0 =? i)%nat with false by (symmetry; apply Nat.eqb_neq; exact Hne). cbn [andb]. ring.
+Qed.
+Lemma square_eq P (F : list (list R)) : squareP P F ->
+  map (fun i => map (fun j => getM F i j) (seq 0 P)) (seq 0 P) = F.
+Proof.
+  intros HS. pose proof HS as [HL HR].
+  etransitivity; [|apply (map_nth_seq [] F)]. rewrite HL. apply map_ext_in. intros i Hi. apply in_seq in Hi.
+  etransitivity; [|apply (map_nth_seq 0 (nth i F []))]. rewrite (square_row P F i HS) by lia. reflexivity.
+Qed.
+Lemma square_maps P (f : nat -> nat -> R) : squareP P (map (fun i => map (fun j => f i j) (seq 0 P)) (seq 0 P)).
+Proof.
+  split; [rewrite map_length, seq_length; reflexivity|].
+  intros r Hr. apply in_map_iff in Hr. destruct Hr as [i [<- _]]. rewrite map_length, seq_length. reflexivity.
+Qed.
+Lemma getM_maps P (f : nat -> nat -> R) i j : (i < P)%nat -> (j < P)%nat ->
+  getM (map (fun i => map (fun j => f i j) (seq 0 P)) (seq 0 P)) i j = f i j.
+Proof.
+  intros Hi Hj. unfold getM. rewrite (nth_map_seq (fun i => map (fun j => f i j) (seq 0 P)) [] P i Hi).
+  apply (nth_map_seq (fun j => f i j) 0 P j Hj).
+Qed.
+
+Lemma curvature_matrix_spec P (TM : list (list (R * R))) (noise : list (R * R)) (noreg : list nat) (value : R) :
+  @noise_pos ROps noise = true -> Forall (fun i => (i < P)%nat) noreg ->
+  @curvature_matrix ROps P TM noise noreg value = @F_spec ROps P TM noise noreg value.
+Proof.
+  intros Hp Hn. unfold curvature_matrix.
+  assert (E : forall F : list (list R), match noreg with [] => F | _ => @add_to_diag ROps F noreg value end = @add_to_diag ROps F noreg value)
+    by (intros F; destruct noreg; reflexivity).
+  rewrite E, curvature_gram_sum by exact Hp. clear E.
+  set (f := fun i j => sumR (map (fterm i j) (combine TM noise))).
+  destruct (add_to_diag_get P noreg _ value (square_maps P f) Hn) as [HS HG].
+  etransitivity; [symmetry; apply (square_eq P _ HS)|]. unfold F_spec.
+  apply map_ext_in. intros i Hi. apply map_ext_in. intros j Hj. apply in_seq in Hi, Hj.
+  rewrite HG, getM_maps by lia. unfold f. rewrite sumT_sumR. cbn [add ROps]. f_equal.
+  apply sumR_map_ext. intros [row n] _. reflexivity.
 Qed.
